@@ -304,11 +304,12 @@ def r_nevra_format(model, rep):
     ok, msg = False, "no (formatted, dict) return found"
     for r in rets:
         v = r.value
-        if v[0] == "tuple" and len(v[1]) == 2 and v[1][0][0] == "binop" and v[1][0][1] == "%" and v[1][0][2][0] == "const":
-            fmt = v[1][0][2][1]
-            ok = fmt == "%(name)s-%(epoch)s:%(version)s-%(release)s.%(arch)s" and v[1][0][3] == v[1][1]
-            msg = "" if ok else "canonical N-E:V-R.A format is %r (or is not applied to the parsed dict)" % fmt
+        if v[0] == "tuple" and len(v[1]) == 2:
             d = v[1][1]
+            part = lambda k_: ("sub", d, ("const", k_))
+            want = T.fmt(part("name"), "-", part("epoch"), ":", part("version"), "-", part("release"), ".", part("arch"))
+            ok = v[1][0] == want
+            msg = "" if ok else "canonical N-E:V-R.A is not '<name>-<epoch>:<version>-<release>.<arch>' of the parsed dict: %s" % T.show(v[1][0])[:120]
             ok2 = d[0] == "call" and d[1][0] == "global" and d[1][1].endswith("parse_nvra") and d[2] == (("param", cx.params[1]),)
             if ok and not ok2:
                 ok, msg = False, "the dict formatted is not parse_nvra(<argument>)"
@@ -391,36 +392,21 @@ def r_pred_wiring(model, rep):
         rep.ob("R-PRED-WIRING", "create_release_id:%s" % pred, bool(r), site=cx.site(f.node),
                msg="" if r else "create_release_id does not refuse (ValueError) what %s refuses for its %s argument"
                % (pred, arg[1]))
-    rets = [ev for ev in cx.events if ev.kind == "return"]
-    # formatting: ga implicit; otherwise short-version-type; '@' + base product id
+    # formatting, evaluated per scenario: ga implicit, otherwise short-version-type; '@' + base product id when bp_short is given
     ok, msg = True, ""
-    if len(rets) != 1:
-        ok, msg = False, "expected a single return"
-    else:
-        v = T.phi_form(rets[0].value)
-        ga = ("binop", "%", ("const", "%s-%s"), ("tuple", (short, version)))
-        full = ("binop", "%", ("const", "%s-%s-%s"), ("tuple", (short, version, typ)))
-        alts = list(v[1]) if v[0] == "phi" else [v]
-        withbp = [x for x in alts if x[0] == "binop" and x[1] == "+"]
-        plain = [x for x in alts if x not in withbp]
-        at = withbp[0] if len(withbp) == 1 else None
-        if set(plain) != {ga, full}:
-            ok, msg = False, "id is not '%%s-%%s' %% (short, version) for ga / '%%s-%%s-%%s' %% (short, version, type) otherwise: %s" % T.show(v)[:160]
-        elif at is not None and not (at[2][0] == "phi" and set(at[2][1]) == {ga, full}):
-            ok, msg = False, "the base product suffix is not appended to the release part"
-        if ok:
-            gab = [e for e in cx.events if e.kind == "bind" and e.value == ga]
-            if not (gab and facts.canon_guards(facts.own_guards(cx, gab[0])) == frozenset(
-                    [facts.canon_guard((("cmp", ("==",), (typ, ("const", "ga"))), True))])):
-                ok, msg = False, "the type is omitted under a condition other than type == 'ga'"
-        if ok and at is not None:
-            rhs = at[3]
-            bp = [("param", x) for x in cx.params[3:6]]
-            want_rec = ("call", ("global", "create_release_id"), tuple(bp), ())
-            if not (rhs[0] == "binop" and rhs[1] == "%" and rhs[2] == ("const", "@%s") and rhs[3] == want_rec):
-                ok, msg = False, "base product part is not '@' + create_release_id(bp_short, bp_version, bp_type)"
-        elif ok:
-            ok, msg = False, "no base-product branch"
+    bp = [("param", x) for x in cx.params[3:6]]
+    rec = ("call", ("global", "create_release_id"), tuple(bp), ())
+    isga = ("cmp", ("==",), (typ, ("const", "ga")))
+    for ga_, bp_ in ((True, False), (False, False), (True, True), (False, True)):
+        table = {facts.canon_guard((isga, True))[0]: ga_, isga: ga_, bp[0]: bp_}
+        vals = facts.value_under(cx, facts.atoms_decider(table))
+        base = (short, "-", version) if ga_ else (short, "-", version, "-", typ)
+        want = T.fmt(*(base + (("@", rec) if bp_ else ())))
+        if vals != [want]:
+            ok = False
+            msg = "release id for type %s 'ga' %s base product must be %s, found %s" % (
+                "==" if ga_ else "!=", "with" if bp_ else "without", T.show(want), [T.show(x)[:120] for x in vals])
+            break
     rep.ob("R-PRED-WIRING", "create_release_id:format", ok, site=cx.site(f.node), msg=msg)
 
 
@@ -712,63 +698,54 @@ def r_cid_glue(model, rep):
 def r_cid_format(model, rep):
     f = model.own_method("composeinfo.ComposeInfo", "create_compose_id")
     cx = facts.fctx(model, f)
-    rets = [ev for ev in cx.events if ev.kind == "return"]
-    if len(rets) != 1:
-        raise AnalysisError("create_compose_id: expected one return")
-    v = rets[0].value
-    # expand the chain of  result += ...  into the set of possible part sequences (phi = alternative histories)
-    def expand(t):
-        if t[0] == "binop" and t[1] == "+":
-            return [a + b for a in expand(t[2]) for b in expand(t[3])]
-        if t[0] == "phi":
-            out = []
-            for a in t[1]:
-                for e in expand(a):
-                    if e not in out:
-                        out.append(e)
-            return out
-        return [[t]]
-    seqs = expand(v)
-    if not seqs or len(seqs) > 16:
-        raise AnalysisError("create_compose_id: cannot decompose the result (%d alternatives)" % len(seqs))
-    S = cx.selfname
-
-    def fmt(t, fmtstr, chains):
-        return (t[0] == "binop" and t[1] == "%" and t[2] == ("const", fmtstr) and t[3][0] == "tuple"
-                and [T.attr_chain(x) for x in t[3][1]] == ["%s.%s" % (S, c) for c in chains])
-    ok1 = all(fmt(q[0], "%s-%s%s", ["release.short", "release.version", "release.type_suffix"]) for q in seqs)
+    S = ("param", cx.selfname)
+    A = lambda *names: T.attr_chain_term(S, names)
+    layered_t = A("release", "is_layered")
+    rel = (A("release", "short"), "-", A("release", "version"), A("release", "type_suffix"))
+    bpp = ("-", A("base_product", "short"), "-", A("base_product", "version"), A("base_product", "type_suffix"))
+    tail = ("-", A("compose", "date"), A("compose", "type_suffix"), ".", A("compose", "respin"))
+    res = {}
+    for layered in (False, True):
+        for hack in (False, True):
+            # the documented RHEL-5 hack: every condition other than is_layered guards only that extra part
+            vals = facts.value_under(cx, facts.atoms_decider({layered_t: layered}, default=hack))
+            if len(vals) != 1 or vals[0][0] != "fmt":
+                raise AnalysisError("create_compose_id: cannot evaluate the result for layered=%s hack=%s: %s" % (
+                    layered, hack, [T.show(x)[:100] for x in vals]))
+            res[(layered, hack)] = list(vals[0][1])
+    n_rel = len(T.fmt(*rel)[1])
+    n_tail = len(T.fmt(*tail)[1])
+    n_bp = len(T.fmt(*bpp)[1])
+    ok1 = all(tuple(p[:n_rel]) == T.fmt(*rel)[1] for p in res.values())
     rep.ob("R-CID-FORMAT", "create_compose_id:starts-with-release", ok1, site=cx.site(f.node),
            msg="" if ok1 else "id does not always start with '%s-%s%s' % (release.short, release.version, release.type_suffix)")
-    ok2 = all(len(q) >= 2 and fmt(q[-1], "-%s%s.%s", ["compose.date", "compose.type_suffix", "compose.respin"]) for q in seqs)
+    ok2 = all(tuple(p[-n_tail:]) == T.fmt(*tail)[1] for p in res.values())
     rep.ob("R-CID-FORMAT", "create_compose_id:ends-with-date-type-respin", ok2, site=cx.site(f.node),
            msg="" if ok2 else "id does not always end with '-%s%s.%s' % (compose.date, compose.type_suffix, compose.respin)")
-
-    def is_bp(p):
-        return fmt(p, "-%s-%s%s", ["base_product.short", "base_product.version", "base_product.type_suffix"])
-    with_bp = [q for q in seqs if any(is_bp(p) for p in q)]
-    without = [q for q in seqs if not any(is_bp(p) for p in q)]
-    ok3 = bool(with_bp) and bool(without) and all(len(q) > 2 and is_bp(q[1]) for q in with_bp)
+    ok3 = all(tuple(res[(True, h)][n_rel:n_rel + n_bp]) == T.fmt(*bpp)[1] for h in (False, True))
     rep.ob("R-CID-FORMAT", "create_compose_id:base-product-part", ok3, site=cx.site(f.node),
            msg="" if ok3 else "layered-product part '-%s-%s%s' % (base_product.short, .version, .type_suffix) must directly follow the release part")
-    bpb = [e for e in cx.events if e.kind == "bind" and e.value[0] == "binop" and e.value[1] == "+" and is_bp(e.value[3])]
-    ok4 = len(bpb) == 1 and [(T.attr_chain(g[0]), g[1]) for g in bpb[0].guards] == [("%s.release.is_layered" % S, True)]
+    ok4 = ok3 and all(not any(T.contains(x, lambda y: y == A("base_product", "short")) for x in res[(False, h)][n_rel:]) for h in (False, True))
     rep.ob("R-CID-FORMAT", "create_compose_id:base-product-iff-layered", ok4, site=cx.site(f.node),
            msg="" if ok4 else "base product part must be present exactly when release.is_layered")
     # any other middle part may only be the documented RHEL-5 variant hack
-    others = set()
-    for q in seqs:
-        for p_ in q[1:-1]:
-            if not is_bp(p_):
-                others.add(T.show(p_))
-    ok5 = all(o.startswith("('-%s' % sorted(self.variants.variants)") for o in others) and len(others) <= 1
+    ok5, others = True, []
+    for (layered, hack), p in res.items():
+        mid = p[n_rel + (n_bp if layered else 0):len(p) - n_tail]
+        if not hack:
+            ok5 = ok5 and not mid
+        else:
+            ok5 = ok5 and (not mid or (len(mid) == 2 and mid[0] == ("const", "-") and T.show(mid[1]).startswith("sorted(self.variants.variants)")))
+        if mid:
+            others.append("".join(T.show(x) for x in mid))
     rep.ob("R-CID-FORMAT", "create_compose_id:no-other-parts", ok5, site=cx.site(f.node),
-           msg="" if ok5 else "unexpected additional id parts: %s" % sorted(others))
+           msg="" if ok5 else "unexpected additional id parts: %s" % sorted(set(others)))
     # Release/BaseProduct.type_suffix: '' for ga/None, '-' + lower otherwise
     g = model.own_method("composeinfo.BaseProduct", "type_suffix")
     gcx = facts.fctx(model, g)
     rets = [ev for ev in gcx.events if ev.kind == "return"]
     empty = [r for r in rets if r.value == ("const", "")]
-    dash = [r for r in rets if r.value == ("binop", "%", ("const", "-%s"), ("call", ("attr", ("attr", ("param", gcx.selfname), "type"), "lower"), (), ()))]
+    dash = [r for r in rets if r.value == T.fmt("-", ("call", ("attr", ("attr", ("param", gcx.selfname), "type"), "lower"), (), ()))]
     ok = len(empty) == 1 and len(dash) == 1 and len(rets) == 2
     if ok:
         gd = empty[0].guards[-1]
